@@ -520,7 +520,11 @@ def splice_fn(text, fs: FnSpec):
         if m[j] in ";{":
             sh.lost.append((c, "body has no tail expression"))
             continue
-        p, _ = _stmt_start(m, j, sh.body_open + 1)
+        jj = j
+        if m[jj] == "}":
+            # the tail expression ends in a block (`match .. { }`, `if .. { } else { }`): start from its opening brace
+            jj = match_open(m, jj)
+        p, _ = _stmt_start(m, jj, sh.body_open + 1)
         ind = _indent_at(text, p)
         eds.append(Edit(p, p, "%s\n%s" % (c.text, ind), "S", c))
 
